@@ -21,7 +21,7 @@ META = {
                   "(e) NameReg::select_uniq (type error reporting) as it was before 26454e7 is REFUTED for termination (diverges when candidate and candidate1 are taken), the current loop terminates on every finite registry with a free name; pretty_print_cap before 03ad279 and the lone-carriage-return assertion before 4ff7631 are refuted with witnesses, the current code proved panic-free (these nine defects were found by this check and repaired in /repo: known_findings.txt); "
                   "(f) merge_fields' value selection by priority never reaches its unreachable!() arm (the hand-written == and > of MergePriority agree and are antisymmetric); (g) the panic-site ledger: C10_sites_all_covered / C10_ledger_no_stale - each of the ~180 panic-capable sites (unwrap, expect, panic!, unreachable!, unimplemented!, assert!, debug_assert!, indexing, integer casts; for C10's own cores also unsigned subtractions and panicking library calls) in the functions mirrored by a model (vector, slice, resolve, version, lock, merge, contract_eq, nls world, eval stack, lazy thunks, lexer, parser error conversion, reporting, string primops, the modelled arms of operation.rs) is mapped to a theorem of coq/Crash (checked term), to a theorem of another property by name (existence checked), or to an explicit Unproved entry (a known-defect entry kind with a refuting lemma exists for reachable sites; none at present); the list is regenerated from /repo on every run and a site that appears, disappears or moves breaks the theorems. "
                   "NOT PROVED: crash-freedom of the whole pipeline over all byte strings. It is validated by sampling only: quick tier about 5 000 inputs, thorough about 300 000 (grammar-generated well-typed / ill-typed / ill-formed programs, token- and byte-level mutations of about 900 repository files, constructs nested 200 deep on an 8 MiB stack, random bytes incl. invalid UTF-8), each through lexing, strict and tolerant parsing, typechecking (both modes), evaluation with a step budget, export to every format, query, record-spine evaluation, pretty-printing and rendering of every error, in a worker process whose death by signal is a finding. Absence of findings there is not the universal claim.",
-    "level_note": "Trusted: Coq kernel; extraction (ExtrOcamlBasic + ExtrOcamlNativeString); the hand-written models' reading of operation.rs, term/string.rs, lexer.rs, parser error.rs, reporting.rs (tied by differential runs: primop cores and the merge priority selection ~1500/40000 cases, lexer automaton 700/20000 sources step by step with raw tokens obtained independently from the logos sub-lexers, lexical-error and split spans against the parser's own errors); the syntactic site translator; the harness (catch_unwind + supervisor; gdb only to name the repeating frames of a stack overflow or a hang). "
+    "level_note": "Trusted: Coq kernel; extraction (ExtrOcamlBasic + ExtrOcamlNativeString); the hand-written models' reading of operation.rs, term/string.rs, lexer.rs, parser error.rs, reporting.rs (tied by differential runs: primop cores and the merge priority selection (quick: 1500 sampled cases; thorough: all 4808 combinations of the operand pools), lexer automaton 700/20000 sources step by step with raw tokens obtained independently from the logos sub-lexers, lexical-error and split spans against the parser's own errors); the syntactic site translator; the harness (catch_unwind + supervisor; gdb only to name the repeating frames of a stack overflow or a hang). "
                   "Modelled, not verified: floats are abstract (theorems hold for every float function); logos regex matching, LALRPOP tables, malachite, serde/toml/saphyr, codespan rendering are not modelled; usize overflow of counters at 2^64 is out of reach of inputs that fit in memory and not modelled. "
                   "Delegated ledger entries rest on the other properties' theorems (C17, C18, C19, C20, C04, C16) by name. Not compiled into the harness: cargo features doc (markdown rendering; the evaluation part eval_record_spine is exercised), repl (query printing is reproduced by calling PrettyPrintCap as the CLI does), format, nix-experimental. "
                   "Resource exhaustion inside evaluation stages under the step budget (e.g. %pow% 2 1e12, array/generate 4e9) is counted in the evidence and not reported as a violation; in the parser and typechecker it is. The debug profile is deliberate (debug assertions and overflow checks are observed).",
@@ -518,6 +518,78 @@ def ops_cases(rng, n):
     return out
 
 
+class _Enum:
+    """a stand-in for the PRNG that replays a fixed script of choices (for exhaustive enumeration)"""
+
+    def __init__(self, script):
+        self.script = list(script)
+
+    def _next(self):
+        return self.script.pop(0)
+
+    def weighted(self, pairs):
+        return self._next()
+
+    def choice(self, xs):
+        return self._next()
+
+    def below(self, n):
+        return self._next()
+
+    def chance(self, a, b):
+        return self._next()
+
+
+def ops_cases_exhaustive():
+    """every combination of the operand pools, per primop (thorough tier)"""
+    out = []
+    seen = set()
+
+    def add(script):
+        try:
+            cs = ops_cases(_Enum(script), 1)
+        except IndexError:
+            return
+        for c in cs:
+            if c[:2] not in seen:
+                seen.add(c[:2])
+                out.append(c)
+    for k in ("div", "mod"):
+        for a in RATS:
+            for b in RATS:
+                add([k, a, b])
+    for a in RATS:
+        for b in EXPS:
+            add(["pow", a, b])
+    idx_all = [(False, i) for i in IDX]          # chance() -> False: choose from the whole pool
+    for n_ in range(7):
+        for a in IDX:
+            for b in IDX:
+                add(["substr", n_, False, a, False, b])
+    for n_ in range(6):
+        for a in IDX:
+            for b in IDX:
+                add(["slice", n_, False, a, False, b])
+        for a in IDX:
+            add(["at", n_, False, a])
+    for a in [x for x in IDX if x[1] in ("0", "1", "2", "5", "-1", "1/2", "5/2", "4294967296", "18446744073709551616", "1" + "0" * 30)]:
+        add(["gen", a])
+    for n_ in range(5):
+        for pat in ["", "x*", "a", "c", "$", "^", "[a-c]", "y?"]:
+            add(["findall", n_, pat])
+    ps = [("| default", "B"), ("", "N"), ("| force", "T"), ("| priority 0", "0"), ("| priority 1", "1"), ("| priority -1", "-1"),
+          ("| priority 0.5", "1/2"), ("| priority -0.5", "-1/2"), ("| priority 1e20", "1" + "0" * 20), ("| priority 0.0", "0")]
+    for a in ps:
+        for b in ps:
+            add(["prio", a, b])
+    for tmpl in ["%%number/arccos%% %s", "%%number/arcsin%% %s", "%%number/arctan%% %s", "%%number/cos%% %s", "%%number/sin%% %s", "%%number/tan%% %s",
+                 "%%number/log%% %s 10", "%%number/log%% %s 2", "%%number/log%% %s 0.5", "%%number/log%% 8 %s", "%%number/arctan2%% %s 0", "%%number/arctan2%% 0 %s",
+                 "std.number.sqrt %s", "std.number.exp %s", "%%pow%% %s 0.5", "%%pow%% %s 1e30", "%%pow%% 1e30 %s"]:
+        for v in RATS + EXPS[-6:]:
+            add(["f64", tmpl, v])
+    return out
+
+
 def rust_ops_outcome(kind, line):
     """canonical view of the harness `eval` answer, comparable with the model's"""
     if line.startswith("ERR Panic"):
@@ -547,7 +619,11 @@ def rust_ops_outcome(kind, line):
 
 def correspond_ops(ck, exe_model, n):
     rng = core.SplitMix64(ck.seed * 1000003 + 1010)
-    cases = ops_cases(rng, n)
+    if n is None:
+        cases = ops_cases_exhaustive()
+        ck.coverage["ops_correspondence_exhaustive_over_pools"] = len(cases)
+    else:
+        cases = ops_cases(rng, n)
     rc1, mout, e1 = core.run_lines(exe_model, [], [c[0] if c[0] != "-" else "gen 0" for c in cases], timeout=1200)
     rc2, rout, e2, = core.run_sharded(core.harness_bin("c10"), ["eval"], ["\t" + c[1] for c in cases], timeout=3600)
     if rc1 or rc2:
@@ -830,9 +906,9 @@ def run(ck):
     if os.environ.get("C10_SCALE"):      # development aid only
         scale = float(os.environ["C10_SCALE"])
     if exe_model:
-        n_ops, n_lex = (1500, 700) if quick else (40000, 20000)
+        n_ops, n_lex = (1500, 700) if quick else (None, 20000)      # thorough: every combination of the operand pools
         if scale < 1:
-            n_ops, n_lex = int(n_ops * scale), int(n_lex * scale)
+            n_ops, n_lex = int((n_ops or 5000) * scale), int(n_lex * scale)
         correspond_ops(ck, exe_model, n_ops)
         correspond_lexer(ck, exe_model, n_lex)
     cor = corpus_cases()
